@@ -152,7 +152,11 @@ func (*c03Prop) Gen(r *Rand, pl *Plan) Case {
 	var evs []c03Event
 	for i := 0; i < reps; i++ {
 		evs = append(evs, c03Event{Kind: "plain", Order: randPerm(r, n), MapSeed: r.U64(), Identity: r.Chance(1, 6)})
-		evs = append(evs, c03Event{Kind: "memo", Order: randPerm(r, n), Churn: r.Intn(4) * r.Intn(4), MapSeed: r.U64(), Identity: r.Chance(1, 6)})
+		ch := r.Intn(4) * r.Intn(4)
+		if r.Chance(1, 8) {
+			ch = r.Range(40, 600) // large index gaps: parser indexes far from the small values a fresh process hands out
+		}
+		evs = append(evs, c03Event{Kind: "memo", Order: randPerm(r, n), Churn: ch, MapSeed: r.U64(), Identity: r.Chance(1, 6)})
 	}
 	for k := r.Intn(3); k > 0; k-- {
 		og := genGrammar(r, &genOpts{MaxNodes: 8, Alphabet: alphabet, Trims: true, MemoChance: 50})
